@@ -942,7 +942,17 @@ class Gen:
                 self.punct(',', 'opt')
             # comments inside a CTE header (name, AS) can make get_type()
             # answer UNKNOWN (DESIGN §7 N2): whitespace only there
-            self.name_token('req!', allow_quoted=False)
+            self.name_token('req!', allow_quoted=rng.random() < 0.3)
+            if rng.random() < 0.25:
+                # column list of the CTE: name(a, b) AS (...)
+                o = self.punct('(', rng.choice(['none', 'none', 'req!']))
+                for j in range(rng.choice([1, 2, 3])):
+                    if j:
+                        self.punct(',', 'none')
+                    self.emit('name', self.plain_name(),
+                              'none' if j == 0 else rng.choice(['none',
+                                                                'req!']))
+                self.punct(')', 'none')
             self.kw('AS', 'req!')
             # 'req!': whitespace only -- a comment between AS and the CTE's
             # parenthesis makes get_type() answer UNKNOWN (DESIGN §7 N2)
